@@ -210,7 +210,7 @@ fn consume(s: &S, id: usize) {
     s.log.push(Ev::ConsRet(id, got, rate));
 }
 
-fn e1(ctx: &Ctx, res: &mut PartResult, pb: usize, two_pushers: bool, two_consumers: bool) {
+fn e1(ctx: &Ctx, res: &mut PartResult, pb: usize, two_pushers: bool, two_consumers: bool, cap: usize) {
     let mut bodies = vec![body(|s: &S| {
         for v in [1u64, 2] {
             s.log.push(Ev::PushCall(v));
@@ -236,8 +236,8 @@ fn e1(ctx: &Ctx, res: &mut PartResult, pb: usize, two_pushers: bool, two_consume
     }
     let npush: u64 = if two_pushers { 3 } else { 2 };
     let scn = Scenario {
-        name: format!("pusher(2 pushes){} || {}, capacity 4, then 2 sequential consumes", if two_pushers { " || pusher(1 push)" } else { "" }, if two_consumers { "consumer(1 consume) || consumer(1 consume)" } else { "consumer(2 consumes)" }),
-        setup: Box::new(|| S { r: AtomicSamplingReservoir::new(4), log: Log::new() }),
+        name: format!("pusher(2 pushes){} || {}, capacity {cap}, then 2 sequential consumes", if two_pushers { " || pusher(1 push)" } else { "" }, if two_consumers { "consumer(1 consume) || consumer(1 consume)" } else { "consumer(2 consumes)" }),
+        setup: Box::new(move || S { r: AtomicSamplingReservoir::new(cap), log: Log::new() }),
         bodies,
         check: Box::new(move |s, _| {
             consume(s, 2);
@@ -280,12 +280,13 @@ fn e1(ctx: &Ctx, res: &mut PartResult, pb: usize, two_pushers: bool, two_consume
                     return Verdict::Fail { sig: sig("drain-yields-duplicate"), msg: format!("value {} yielded twice (log {:?})", v, log) };
                 }
             }
-            if seen.len() as u64 != npush {
+            // with more pushes than capacity the replacement branch decides what is retained: only "nothing invented, nothing twice"
+            if npush as usize <= cap && seen.len() as u64 != npush {
                 return Verdict::Fail { sig: sig("pushed-value-never-yielded"), msg: format!("{} values pushed (capacity 4) but only {:?} ever yielded (log {:?})", npush, yielded, log) };
             }
             for e in &log {
                 if let Ev::ConsRet(_, got, rate) = e {
-                    if *rate != 1.0 && !overlap {
+                    if npush as usize <= cap && *rate != 1.0 && !overlap {
                         return fail("sample-rate-wrong", format!("sample rate {} with {} yielded and capacity not exceeded", rate, got.len()));
                     }
                 }
@@ -304,6 +305,7 @@ fn parts(ctx: &Ctx) -> Vec<PartSpec> {
             PartSpec::new("e1-push-vs-consume-pb2", json!({"e1": 2, "two": false})),
             PartSpec::new("e1-2pushers-vs-consume-pb2", json!({"e1": 2, "two": true})),
             PartSpec::new("e1-push-vs-2consumers-pb2", json!({"e1": 2, "two": false, "cons2": true})),
+            PartSpec::new("e1-2pushers-vs-consume-capacity1-pb2", json!({"e1": 2, "two": true, "cap": 1})),
         ]
     } else {
         vec![
@@ -312,6 +314,7 @@ fn parts(ctx: &Ctx) -> Vec<PartSpec> {
             PartSpec::new("e1-push-vs-consume-pb4", json!({"e1": 4, "two": false})).budget(1500.0),
             PartSpec::new("e1-2pushers-vs-consume-pb3", json!({"e1": 3, "two": true})).budget(1500.0),
             PartSpec::new("e1-push-vs-2consumers-pb3", json!({"e1": 3, "two": false, "cons2": true})).budget(1500.0),
+            PartSpec::new("e1-2pushers-vs-consume-capacity1-pb3", json!({"e1": 3, "two": true, "cap": 1})).budget(1500.0),
         ]
     }
 }
@@ -319,7 +322,7 @@ fn parts(ctx: &Ctx) -> Vec<PartSpec> {
 fn run(ctx: &Ctx, spec: &PartSpec) -> PartResult {
     let mut res = PartResult::new(&spec.name, "");
     if let Some(pb) = spec.arg["e1"].as_u64() {
-        e1(ctx, &mut res, pb as usize, spec.arg["two"].as_bool().unwrap_or(false), spec.arg["cons2"].as_bool().unwrap_or(false));
+        e1(ctx, &mut res, pb as usize, spec.arg["two"].as_bool().unwrap_or(false), spec.arg["cons2"].as_bool().unwrap_or(false), spec.arg["cap"].as_u64().unwrap_or(4) as usize);
     } else {
         let caps: Vec<usize> = spec.arg["caps"].as_array().unwrap().iter().map(|x| x.as_u64().unwrap() as usize).collect();
         e3_tree(ctx, &mut res, &caps, spec.arg["extra"].as_u64().unwrap_or(3) as usize);
